@@ -185,9 +185,14 @@ class G:
                 alts.append(Ref(r.choice(['INT', 'STRING', 'ID', 'FLOAT', 'BOOL'])))
             elif c < 0.9:
                 alts.append(Seq([self.newkw(), Ref(r.choice(self.common)), Ref(r.choice(self.match))]))
-            elif self.f1:
+            elif c < 0.95:
                 alts.append(Seq([self.newkw(), Ref(r.choice(self.match)), Ref(r.choice(self.common))]))
                 self.used_features.add('abs-match-before-common')
+            else:
+                # a match rule (possibly a non-terminal one) before a reference to another abstract rule
+                tgt = Ref(r.choice(later_abs)) if later_abs else Ref(r.choice(self.common))
+                alts.append(Seq([Ref(r.choice(self.match)), self.newkw(), tgt]))
+                self.used_features.add('abs-match-before-abstract')
         if not any(isinstance(a, Ref) and a.name in self.common or isinstance(a, Seq) for a in alts):
             alts.insert(0, Ref(r.choice(self.common)))
         return Choice(alts) if len(alts) > 1 else alts[0]
